@@ -14,6 +14,8 @@ def unflag {α : Type} [Scalar α] (b : Bool) : α := if b then Scalar.lit 1 els
 
 /-- hand-written model kernels by name -/
 def modelRegistry {α : Type} [Scalar α] : List (String × (List α → Option (List α))) := [
+  ("hslToHsv", fun xs => match xs with | [h, s, l] => some (Color.hslToHsv h s l) | _ => none),
+  ("rgbOfHuePolar", fun xs => match xs with | [h, p] => some (Color.rgbOfHuePolar h p) | _ => none),
   ("qmul", fun xs => match xs with
     | [a, b, c, d, e, f, g, h] => some (Quat.mul ⟨a, b, c, d⟩ ⟨e, f, g, h⟩).toList | _ => none),
   ("qconj", fun xs => match xs with | [a, b, c, d] => some (Quat.conj ⟨a, b, c, d⟩).toList | _ => none),
